@@ -356,7 +356,7 @@ inductive CallVerdict where
   | accept (T : Table) (result : Nat)
   | reject (T : Table)
   | fuelOut
-  deriving Repr
+  deriving DecidableEq, Repr
 
 /-- the `Callable` branch of `apply_value_to_type` up to (not including) dispatch-table
 specialisation and `resolve_function_cycles`. -/
